@@ -1224,6 +1224,29 @@ def _state_of(ix):
     return ix.latest_generation(), keys, docs
 
 
+def _probe_writer(ix, timeout, delay, patience_s=30.0):
+    """ix.writer(timeout, delay) in a helper thread: the writer | "lockerror" | "hang" (no answer within patience_s wall
+    seconds for a requested timeout of at most 0.05 s: the attempt blocks instead of raising LockError)."""
+    import threading
+    from whoosh import index
+    box = {}
+
+    def body():
+        try:
+            box["w"] = ix.writer(timeout=timeout, delay=delay)
+        except index.LockError:
+            box["w"] = "lockerror"
+        except BaseException as e:  # noqa
+            box["e"] = e
+    t = threading.Thread(target=body)
+    t.daemon = True
+    t.start()
+    t.join(patience_s)
+    if "e" in box:
+        raise box["e"]
+    return box.get("w", "hang")
+
+
 def fault_run(ctx, plan, tap, root, where, k, seedtag):
     """One execution of the plan with a one-shot fault before the k-th faultable storage event of phase `where`
     ('body' = inside the with-block before commit starts; 'commit' = inside commit()); k = 0: no fault (counts events).
@@ -1291,9 +1314,11 @@ def fault_run(ctx, plan, tap, root, where, k, seedtag):
         tap.on_event = None
     res["nevents"], res["fired"] = st["n"], st["fired"]
     # ---- what a user can do next
-    try:
-        w2 = ix.writer(timeout=0.05, delay=0.01)
-    except index.LockError:
+    w2 = _probe_writer(ix, 0.05, 0.01)
+    if w2 == "hang":
+        res["lock"] = "hang"
+        return res
+    if w2 == "lockerror":
         res["lock"] = "held"
         if where == "commit":
             # observation: does cancel() on the writer whose commit() failed give the index back?
@@ -1302,13 +1327,15 @@ def fault_run(ctx, plan, tap, root, where, k, seedtag):
                 res["cancel_after"] = "returned"
             except Exception as e:  # noqa
                 res["cancel_after"] = "raised:" + type(e).__name__
-            try:
-                ix.writer(timeout=0).cancel()
+            w5 = _probe_writer(ix, 0, 0.01)
+            if w5 in ("hang", "lockerror"):
+                res["lock_after_cancel"] = "held" if w5 == "lockerror" else "hang"
+            else:
                 res["lock_after_cancel"] = "free"
-            except index.LockError:
-                res["lock_after_cancel"] = "held"
-            except Exception as e:  # noqa
-                res["lock_after_cancel"] = "exc:" + type(e).__name__
+                try:
+                    w5.cancel()
+                except Exception as e:  # noqa
+                    res["lock_after_cancel"] = "exc:" + type(e).__name__
         return res
     res["lock"] = "free"
     try:
@@ -1375,6 +1402,11 @@ def run_fault_case(ctx, idx, rng):
             else:
                 ctx.count("fault.user_exception_runs")
             ctx.count("fault.checks.lock_free")
+            if r["lock"] == "hang":
+                ctx.fail("progress", "writer-attempt-blocks-after-failing-with-block:%s:%s" % (plan["storage"], where), w,
+                         "ix.writer(timeout=0.05) neither returned nor raised LockError within 30 s")
+                failed = True
+                break
             if r["lock"] != "free":
                 ctx.fail("progress", "lock-held-after-failing-with-block:%s:%s" % (plan["storage"], where), w,
                          "ix.writer(timeout=0.05) raised LockError after the with-block failed with %s" % r["out"])
@@ -1423,6 +1455,8 @@ def run_fault_case(ctx, idx, rng):
                 ctx.count("obs.commit_fault.points")
                 ctx.count("obs.commit_fault.out." + r["out"].split(":")[0])
                 ctx.count("obs.commit_fault.lock_" + r["lock"])
+                if r["lock"] == "hang":
+                    break       # (a blocking lock: every further probe would cost the patience again)
                 if r["lock"] == "held" and r["fired"]:
                     ctx.count("obs.commit_fault.lock_held.at.%s:%s" % r["fired"])
                 if "cancel_after" in r:
